@@ -96,6 +96,9 @@ func (d *DASer) VerifExpireBackoff(ctx context.Context, height uint64) bool {
 	}
 	a.after = time.Time{}
 	d.sampler.state.failed[height] = a
+	if h := VerifHook; h != nil {
+		h("expire", map[string]any{"h": height}) // while the coordinator is still paused
+	}
 	return true
 }
 
